@@ -238,16 +238,21 @@ func containsStr(s, sub string) bool {
 // must present the ledger of the final best chain (SyncedWhenQuiet, LedgerWhenQuiet); what depends on
 // the interleaving (the pending set and the flags derived from it) is not compared.
 func ReplayFree(u *Universe, h History, dir string, seed int64) (res Result) {
-	return replayFree(u, h, dir, seed, false)
+	return replayFree(u, h, dir, seed, false, false)
 }
 
 // ReplayTraced is ReplayFree with every chain action, scheduling point and database commit recorded
 // (ledgertrace.go); the lines are judged by TLC against spec/WalletTrace.tla.
 func ReplayTraced(u *Universe, h History, dir string, seed int64) (res Result) {
-	return replayFree(u, h, dir, seed, true)
+	return replayFree(u, h, dir, seed, true, false)
 }
 
-func replayFree(u *Universe, h History, dir string, seed int64, traced bool) (res Result) {
+// ReplayTracedQueries is ReplayTraced with a query thread asking for balance and unspent outputs all the time.
+func ReplayTracedQueries(u *Universe, h History, dir string, seed int64) (res Result) {
+	return replayFree(u, h, dir, seed, true, true)
+}
+
+func replayFree(u *Universe, h History, dir string, seed int64, traced, queries bool) (res Result) {
 	res.OK = true
 	for i := range h {
 		switch h[i].A {
@@ -283,6 +288,26 @@ func replayFree(u *Universe, h History, dir string, seed int64, traced bool) (re
 				res.OK, res.Err = false, "harness: "+rec.bad
 			}
 		}()
+	}
+	if queries && rec != nil {
+		names := append([]string{}, u.Wallets...)
+		sort.Strings(names)
+		qname := names[int(seed)%len(names)]
+		if _, err := w.W.UseWallet(w.Wals[qname].ID); err != nil {
+			return Result{OK: false, Err: "harness: UseWallet: " + err.Error()}
+		}
+		stopQ, doneQ := make(chan struct{}), make(chan struct{})
+		go func() { rec.queries(stopQ, qname); close(doneQ) }()
+		stopped := false
+		stopQueries := func() {
+			if !stopped {
+				stopped = true
+				close(stopQ)
+				<-doneQ
+			}
+		}
+		defer stopQueries()
+		w.stopQueries = stopQueries
 	}
 	w.G.Open()
 	rnd := rand.New(rand.NewSource(seed))
@@ -363,6 +388,9 @@ func replayFree(u *Universe, h History, dir string, seed int64, traced bool) (re
 		time.Sleep(3 * time.Millisecond)
 	}
 	time.Sleep(20 * time.Millisecond) // a step that has taken its item off the queue may still be committing
+	if w.stopQueries != nil {
+		w.stopQueries()
+	}
 	diffs, err := w.Compare(exp)
 	if err != nil {
 		return Result{OK: false, Step: len(h) - 1, Err: "compare: " + err.Error()}
